@@ -148,6 +148,8 @@ class Report:
         """unbounded version of a model-checked law, discharged by the TLA+ proof system (spec/proofs/Proofs.tla)"""
         r = tlc.prove()
         self.extra.setdefault("proofs", []).append(dict(theorem=theorem, **r))
+        if r.get("not_discharged"):      # supplementary: never decides, never silent (run.py setup is strict about the proofs)
+            print(f"NOTE property={self.pid} proof {theorem}: {r['not_discharged']} (loaded machine? the proofs are re-run strictly by `run.py setup`)")
 
     # -- trace validation
     def add_tv(self, driver, module, scenarios, traces, verdicts, family=None, sample_every=None):
